@@ -605,6 +605,51 @@ def lazylist_methods(chk, repo):
                "negative-position / negative-stop / negative-step arms: "
                "l[n] on an infinite list hangs", F, n.lineno,
                sample={"site": ast.unparse(n)[:30], "guard": guard})
+    # a look-up of the list in itself at `bound - k`: for bound < k the
+    # position is negative, which is the forcing arm (l[:0] -> self[-1])
+    def positive_guard(test, pol, name, k):
+        if isinstance(test, ast.Name) and test.id == name:
+            return pol  # `if bound:` with bound >= 0 and k == 1
+        if not (isinstance(test, ast.Compare) and len(test.ops) == 1):
+            return False
+        l, op, r = test.left, test.ops[0], test.comparators[0]
+        if isinstance(l, ast.Constant) and isinstance(r, ast.Name):
+            l, r = r, l
+            op = {ast.Lt: ast.Gt, ast.Gt: ast.Lt, ast.LtE: ast.GtE,
+                  ast.GtE: ast.LtE}.get(type(op), type(op))()
+        if not (isinstance(l, ast.Name) and l.id == name and isinstance(
+                r, ast.Constant) and isinstance(r.value, int)):
+            return False
+        c = r.value
+        if pol:
+            return (isinstance(op, ast.Gt) and c >= k - 1) or (
+                isinstance(op, ast.GtE) and c >= k)
+        return (isinstance(op, ast.Lt) and c >= k) or (
+            isinstance(op, ast.LtE) and c >= k - 1) or (
+            isinstance(op, ast.Eq) and c == 0 and k == 1)
+    n_self = 0
+    for owner in closure:
+        for n in ast.walk(owner):
+            if not (isinstance(n, ast.Subscript) and isinstance(
+                    n.value, ast.Name) and n.value.id == "self"):
+                continue
+            n_self += 1
+            idx = n.slice
+            if not (isinstance(idx, ast.BinOp) and isinstance(idx.op, ast.Sub)
+                    and isinstance(idx.left, ast.Name) and isinstance(
+                    idx.right, ast.Constant) and isinstance(
+                    idx.right.value, int) and idx.right.value > 0):
+                continue
+            ok_g = any(positive_guard(test, pol, idx.left.id, idx.right.value)
+                       for test, pol in path_conditions(n, owner))
+            chk.ob("C14.getitem-forces-only-from-the-end",
+                   f"LazyList.__getitem__:{ast.unparse(n)[:30]}", ok_g,
+                   f"`{ast.unparse(n)}` looks the list up in itself at a "
+                   f"position that is negative when `{idx.left.id}` is below "
+                   f"{idx.right.value}: that is the arm that exhausts the "
+                   "source, so the first 0 items of an infinite list hang",
+                   F, n.lineno, witness="infinite list [:0]")
+    chk.unit("self look-ups inside __getitem__", n_self)
     # open-ended slice stays lazy
     from .c13 import slice_bound_aliases
 
